@@ -228,6 +228,49 @@ func (c *c01Case) classifyReorder() {
 	}
 }
 
+// classifyTunnelCollision sets "tunnel-addr-is-wep-ip-on-same-node" when, in S, a (valid) node
+// resource has a tunnel address that is also an address of a (valid) workload endpoint on that node
+// which the route resolver tracks (local endpoints; every endpoint in WorkloadIPs mode), in a
+// configuration that wires the route resolver.  "...-changed-in-history" additionally requires that
+// either resource was delivered more than once (so arrival order varies beyond B vs B').
+func (c *c01Case) classifyTunnelCollision() {
+	if c.Conf.Name == "plain" {
+		return
+	}
+	hostOfWEP := func(name string) string {
+		switch {
+		case strings.HasPrefix(name, "wep/l"):
+			return c01Local
+		case strings.HasPrefix(name, "wep/r"):
+			return c01Remote
+		case strings.HasPrefix(name, "wep/q"):
+			return c01Remote2
+		}
+		return ""
+	}
+	for i, s := range c.U.Slots {
+		if s.Class != "node" || c.Final[i] < 0 || c.Vers[i][c.Final[i]].Invalid {
+			continue
+		}
+		host := strings.TrimPrefix(s.Name, "node/")
+		for j, w := range c.U.Slots {
+			if hostOfWEP(w.Name) != host || c.Final[j] < 0 || c.Vers[j][c.Final[j]].Invalid {
+				continue
+			}
+			if host != c01Local && c.Conf.RouteSource != "WorkloadIPs" {
+				continue
+			}
+			for _, a := range c.Vers[i][c.Final[i]].TunnelAddrs {
+				for _, b := range c.Vers[j][c.Final[j]].IPs {
+					if a == b {
+						c.Classes["tunnel-addr-is-wep-ip-on-same-node"] = true
+					}
+				}
+			}
+		}
+	}
+}
+
 func (c *c01Case) verDesc(slot, ver int) string {
 	if ver < 0 {
 		return "<deleted>"
@@ -310,6 +353,11 @@ func c01GenCase(t *rapid.T, mode string) *c01Case {
 	c.Conf = c01ConfVariants[confIdx]
 	c.U = c01NewUniverse(c.Conf.SpoofingAllowed, ev.Known(c01SigBlockStale) && c.Conf.RouteSource == "CalicoIPAM", ev.Known(c01SigSameSubnetStale))
 	c.U.PreferVXLAN = focus == "vxlan"
+	// Tunnel/workload address collisions on one node: common in the route-ish focuses.
+	collideOdds := map[string]int{"routes": 2, "vxlan": 2, "mixed": 3}[focus] // one in N
+	if collideOdds > 0 && rapid.IntRange(0, collideOdds-1).Draw(t, "tunnelCollide") == collideOdds-1 {
+		c.U.TunnelCollide = true
+	}
 	// Reorder scenario (about a third of the policy-ish cases): see c01Universe.ReorderOn.
 	if (focus == "policy" || focus == "mixed") && rapid.IntRange(0, 1).Draw(t, "reorderScenario") == 1 {
 		ch := rapid.SampledFrom(c01ReorderChoices).Draw(t, "reorderKey")
@@ -317,6 +365,13 @@ func c01GenCase(t *rapid.T, mode string) *c01Case {
 		c.Classes["reorder-scenario"] = true
 	}
 	forced := map[string]bool{}
+	if c.U.TunnelCollide {
+		// A local workload and the local node resource are in play (and in S), so that the collision
+		// is visible to the route resolver in every route source mode.
+		forced["wep/l1"] = true
+		forced["node/"+c01Local] = true
+		c.Classes["tunnel-collide-mode"] = true
+	}
 	vtepSlots := []string{"node/" + c01Remote, "hostcfg/" + c01Remote + "/IPv4VXLANTunnelAddr", "hostcfg/" + c01Remote + "/VXLANTunnelMACAddr",
 		"pool/10.0.0.0-16", "block/10.0.1.0-29"}
 	if focus == "vxlan" && c.Conf.RouteSource == "CalicoIPAM" && rapid.IntRange(0, 2).Draw(t, "vtepScenario") > 0 {
@@ -673,6 +728,8 @@ func c01GenCase(t *rapid.T, mode string) *c01Case {
 	}
 	c.classifyReorder()
 	c.NUpdates = len(flat)
+
+	c.classifyTunnelCollision()
 
 	// Batching, flush points, in-sync position.
 	flushMode := rapid.SampledFrom([]string{"every-update", "random", "random", "sparse", "end-only"}).Draw(t, "flushMode")
